@@ -86,46 +86,78 @@ def httpCls (E : Env) : Option (Bytes × Nat) := Uri.lookupScheme E.uri.schemes 
 
 def sCONNECT : Bytes := "CONNECT".toUTF8.toList
 
+/-- `isinstance(uri, (HTTP, HTTPS))` -/
+def isHttpCls (u : Uri.Uri) : Bool :=
+  match u.cls with
+  | some (n, _) => n == [0x68, 0x74, 0x74, 0x70] || n == [0x68, 0x74, 0x74, 0x70, 0x73]
+  | none => false
+
+/-- `Request.validate_request_uri` -/
+def validateRequestUri (method : Bytes) (uri : Uri.Uri) : R Unit :=
+  if !isHttpCls uri then .error .invalidURI
+  else if !uri.fragment.isEmpty || !uri.username.isEmpty || !uri.password.isEmpty then .error .invalidURI
+  else if startsWith uri.path [0x2F, 0x2F] then .error .invalidURI
+  else if !uri.path.isEmpty && uri.path != [0x2A] && !startsWith uri.path [0x2F] then .error .invalidURI
+  else if method == sCONNECT && (!uri.scheme.isEmpty || !uri.path.isEmpty || !uri.query.isEmpty || uri.host.isEmpty) then .error .invalidURI
+  else .ok ()
+
 /-- `Request.parse(line)` -/
-def parseRequestLine (E : Env) (m : Msg) (line : Bytes) : R Msg := do
-  let (method, target, version) ← StartLine.splitRequestLine line
-  let proto ← StartLine.parseProtocol version
-  let method ← StartLine.parseMethod method
-  if startsWith target [0x2F, 0x2F] then throw .invalidURI
-  let target := if method == sCONNECT then [0x2F, 0x2F] ++ target else target
-  -- `self.uri` is a fresh `HTTP(b'/')` object: class HTTP, parse keeps that class for scheme-less targets
-  let uri ← Uri.parse E.uri (httpCls E) target
-  -- validate_request_uri
-  let clsOk := match uri.cls with
-    | some (n, _) => n == [0x68, 0x74, 0x74, 0x70] || n == [0x68, 0x74, 0x74, 0x70, 0x73]
-    | none => false
-  if !clsOk then throw .invalidURI
-  if !uri.fragment.isEmpty || !uri.username.isEmpty || !uri.password.isEmpty then throw .invalidURI
-  if startsWith uri.path [0x2F, 0x2F] then throw .invalidURI
-  if !uri.path.isEmpty && uri.path != [0x2A] && !startsWith uri.path [0x2F] then throw .invalidURI
-  if method == sCONNECT && (!uri.scheme.isEmpty || !uri.path.isEmpty || !uri.query.isEmpty || uri.host.isEmpty) then throw .invalidURI
-  pure { m with method := method, uri := uri, proto := proto }
+def parseRequestLine (E : Env) (m : Msg) (line : Bytes) : R Msg :=
+  match StartLine.splitRequestLine line with
+  | .error e => .error e
+  | .ok (method, target, version) =>
+    match StartLine.parseProtocol version with
+    | .error e => .error e
+    | .ok proto =>
+      match StartLine.parseMethod method with
+      | .error e => .error e
+      | .ok method =>
+        if startsWith target [0x2F, 0x2F] then .error .invalidURI
+        else
+          let target := if method == sCONNECT then [0x2F, 0x2F] ++ target else target
+          -- `self.uri` is a fresh `HTTP(b'/')` object: class HTTP, parse keeps that class for scheme-less targets
+          match Uri.parse E.uri (httpCls E) target with
+          | .error e => .error e
+          | .ok uri =>
+            match validateRequestUri method uri with
+            | .error e => .error e
+            | .ok _ => .ok { m with method := method, uri := uri, proto := proto }
 
 /-- `Response.parse(line)` -/
 def parseStatusLine (m : Msg) (line : Bytes) : R Msg := do
   let (proto, code, reason) ← StartLine.parseResponseLine line
   pure { m with proto := proto, status := code, reason := reason }
 
+/-- `validate_request_uri_scheme`: a scheme-less target gets the configured scheme, host and port -/
+def applyDefaults (E : Env) (n : Uri.Uri) : Uri.Uri :=
+  if !n.scheme.isEmpty then n
+  else
+    let u := Uri.setScheme E.uri.schemes n E.defaultScheme
+    { u with host := E.defaultHost, port := some E.defaultPort }
+
+/-- `MOVED_PERMANENTLY(path)` builds its Location with `str(URI(path))`: the canonical path is parsed as a
+    URI reference (and composed) first; an `InvalidURI` from that becomes the 400 of `parse()` -/
+def movedPermanently (E : Env) (path : Bytes) : PyExc :=
+  match to400 (Uri.parse E.uri none path) with
+  | .error e => e
+  | .ok loc => match to400 (Uri.compose E.sets loc) with
+    | .error e => e
+    | .ok _ => .status 301
+
 /-- server: `on_startline_complete` = on_uri_complete then on_protocol_complete -/
-def serverStartlineComplete (E : Env) (m : Msg) : R Msg := do
+def serverStartlineComplete (E : Env) (m : Msg) : R Msg :=
   -- `_check_uri_max_length(bytes(self.request.uri))`
-  let _ ← to400 (Uri.compose E.sets m.uri)
-  -- sanitize_request_uri_path
-  let n := Uri.normalize E.uri m.uri
-  if n.path != m.uri.path then throw (.status 301)
-  -- validate_request_uri_scheme
-  let uri := if !n.scheme.isEmpty then n
+  match to400 (Uri.compose E.sets m.uri) with
+  | .error e => .error e
+  | .ok _ =>
+    -- sanitize_request_uri_path
+    let n := Uri.normalize E.uri m.uri
+    if n.path != m.uri.path then .error (movedPermanently E n.path)
     else
-      let u := Uri.setScheme E.uri.schemes n E.defaultScheme
-      { u with host := E.defaultHost, port := some E.defaultPort }
-  -- on_protocol_complete
-  let rp ← StartLine.negotiate m.proto
-  pure { m with uri := uri, respProto := rp }
+      -- on_protocol_complete
+      match StartLine.negotiate m.proto with
+      | .error e => .error e
+      | .ok rp => .ok { m with uri := applyDefaults E n, respProto := rp }
 
 def sHost : Bytes := "Host".toUTF8.toList
 def sConnection : Bytes := "Connection".toUTF8.toList
@@ -160,43 +192,64 @@ def contentTypeOk (v : Bytes) : R Unit :=
       else .error .invalidHeader
 
 /-- shared part of `on_headers_complete`: content coding and content type -/
-def baseHeadersComplete (c : Cur) : R Cur := do
-  let coding ← match c.msg.headers.get? sCE with
+def baseHeadersComplete (c : Cur) : R Cur :=
+  let coding : R Host.Coding := match c.msg.headers.get? sCE with
     | some v => to501 (Host.contentCoding v)
-    | none => pure .none
-  match c.msg.headers.get? sCT with
-  | some v => let _ ← contentTypeOk v; pure ()
-  | none => pure ()
-  pure { c with coding := coding }
+    | none => .ok .none
+  match coding with
+  | .error e => .error e
+  | .ok coding =>
+    match (match c.msg.headers.get? sCT with | some v => contentTypeOk v | none => .ok ()) with
+    | .error e => .error e
+    | .ok _ => .ok { c with coding := coding }
+
+/-- `set_request_uri_host` -/
+def setRequestHost (m : Msg) : R Msg :=
+  match m.headers.get? sHost with
+  | none => .ok m
+  | some v =>
+    match Host.parse v with
+    | .error e => .error e
+    | .ok h =>
+      match setPortOpt { m.uri with host := Element.latin1ToUtf8 h.host } h.port with
+      | .error e => .error e
+      | .ok u => .ok { m with uri := u }
+
+/-- `check_http2_upgrade` with `HTTP2 is None`: only the parsing side effects remain -/
+def checkUpgrade (m : Msg) : R Unit :=
+  match m.headers.get? sConnection with
+  | none => .ok ()
+  | some v =>
+    match Host.values v with
+    | .error e => .error e
+    | .ok conn =>
+      if conn.contains sUpgrade && conn.contains sH2S && (m.headers.get? sUpgrade).isSome then
+        match Element.parse ((m.headers.get? sUpgrade).getD []) with
+        | .error e => .error e
+        | .ok up =>
+          if up.value == "h2c".toUTF8.toList && (m.headers.get? sH2S).isSome then
+            match Element.parse ((m.headers.get? sH2S).getD []) with
+            | .error e => .error e
+            | .ok _ => .ok ()
+          else .ok ()
+      else .ok ()
 
 /-- server `on_headers_complete` -/
-def serverHeadersComplete (_E : Env) (c : Cur) : R Cur := do
-  let m := c.msg
-  if StartLine.protoGe m.proto (1, 1) && (m.headers.get? sHost).isNone then throw bad
-  let m ← match m.headers.get? sHost with
-    | some v => do
-      let h ← Host.parse v
-      let u ← setPortOpt { m.uri with host := Element.latin1ToUtf8 h.host } h.port
-      pure { m with uri := u }
-    | none => pure m
-  -- check_http2_upgrade (HTTP2 is None: only the parsing side effects remain)
-  match m.headers.get? sConnection with
-  | some v => do
-    let conn ← Host.values v
-    if conn.contains sUpgrade && conn.contains sH2S && (m.headers.get? sUpgrade).isSome then
-      let up ← Element.parse ((m.headers.get? sUpgrade).getD [])
-      if up.value == "h2c".toUTF8.toList && (m.headers.get? sH2S).isSome then
-        let _ ← Element.parse ((m.headers.get? sH2S).getD [])
-        pure ()
-  | none => pure ()
-  baseHeadersComplete { c with msg := m }
+def serverHeadersComplete (_E : Env) (c : Cur) : R Cur :=
+  if StartLine.protoGe c.msg.proto (1, 1) && (c.msg.headers.get? sHost).isNone then .error bad
+  else match setRequestHost c.msg with
+    | .error e => .error e
+    | .ok m => match checkUpgrade m with
+      | .error e => .error e
+      | .ok _ => baseHeadersComplete { c with msg := m }
 
 /-- client `on_headers_complete` -/
-def clientHeadersComplete (E : Env) (c : Cur) : R Cur := do
-  let c ← baseHeadersComplete c
-  if E.requestIsConnect then
-    pure { c with msg := { c.msg with headers := (c.msg.headers.del sTE).del sCL } }
-  else pure c
+def clientHeadersComplete (E : Env) (c : Cur) : R Cur :=
+  match baseHeadersComplete c with
+  | .error e => .error e
+  | .ok c =>
+    if E.requestIsConnect then .ok { c with msg := { c.msg with headers := (c.msg.headers.del sTE).del sCL } }
+    else .ok c
 
 /-- Unicode whitespace that `int(str)` strips, for ISO-8859-1 text -/
 def isUniSpace (b : Byte) : Bool := isPySpace b || (0x1C ≤ b && b ≤ 0x1F) || b == 0x85 || b == 0xA0
@@ -240,28 +293,33 @@ def chunkSize (line : Bytes) : R Nat :=
   | some n => if n < 0 then .error bad else .ok n.toNat
   | none => .error bad
 
+/-- the loop of `merge_trailer_into_header` over the announced names -/
+def mergeGo (E : Env) : List Bytes → Headers.Coll → Headers.Coll → R (Headers.Coll × Headers.Coll)
+  | [], hs, ts => .ok (hs, ts)
+  | n :: ns, hs, ts =>
+    match Element.utf8ToLatin1 n with
+    | none => .error bad               -- a non-Latin-1 name cannot be a field name
+    | some nl =>
+      match to400 (Headers.pop E.reg ts nl) with
+      | .error e => .error e
+      | .ok (v, ts') =>
+        match v with
+        | none => mergeGo E ns hs ts'
+        | some val => match to400 (Headers.append E.reg hs nl val) with
+          | .error e => .error e
+          | .ok hs' => mergeGo E ns hs' ts'
+
 /-- `merge_trailer_into_header` -/
-def mergeTrailers (E : Env) (m : Msg) (trailers : Headers.Coll) : R Msg := do
-  let names ← match m.headers.get? sTrailer with
+def mergeTrailers (E : Env) (m : Msg) (trailers : Headers.Coll) : R Msg :=
+  let names : R (List Bytes) := match m.headers.get? sTrailer with
     | some v => to400 (Host.trailerNames Headers.title E.forbidden v)
-    | none => pure []
-  let rec go : List Bytes → Headers.Coll → Headers.Coll → R (Headers.Coll × Headers.Coll)
-    | [], hs, ts => .ok (hs, ts)
-    | n :: ns, hs, ts =>
-      match Element.utf8ToLatin1 n with
-      | none => .error bad               -- a non-Latin-1 name cannot be a field name
-      | some nl =>
-        match to400 (Headers.pop E.reg ts nl) with
-        | .error e => .error e
-        | .ok (v, ts') =>
-          match v with
-          | none => go ns hs ts'
-          | some val => match to400 (Headers.append E.reg hs nl val) with
-            | .error e => .error e
-            | .ok hs' => go ns hs' ts'
-  let (hs, rest) ← go names m.headers trailers
-  if !rest.isEmpty then throw bad
-  pure { m with headers := hs }
+    | none => .ok []
+  match names with
+  | .error e => .error e
+  | .ok names =>
+    match mergeGo E names m.headers trailers with
+    | .error e => .error e
+    | .ok (hs, rest) => if !rest.isEmpty then .error bad else .ok { m with headers := hs }
 
 inductive Step where
   | wait (c : Cur) (buf : Bytes)          -- NOT_RECEIVED_YET
@@ -381,53 +439,62 @@ def parseBody (E : Env) (c : Cur) (buf : Bytes) : R Step :=
 def natToDec := StartLine.natToDec
 
 /-- `on_body_complete` -/
-def bodyComplete (side : Side) (c : Cur) (buf : Bytes) : R Msg := do
+def bodyComplete (side : Side) (c : Cur) (buf : Bytes) : R Msg :=
   let m := c.msg
-  if side == .server && !buf.isEmpty && (m.headers.get? sCL).isNone && !c.chunked then throw (.status 411)
-  if c.coding != .none then throw Element.needsOracle                -- body.decompress(): zlib
-  -- set_content_length
-  let hs := if c.chunked || (m.headers.get? sCL).isNone then m.headers.put sCL (natToDec m.body.length) else m.headers
-  let hs := if c.chunked then hs.del sTE else hs
-  let m := { m with headers := hs }
-  if side == .server && (m.method == "HEAD".toUTF8.toList || m.method == [0x47, 0x45, 0x54] || m.method == "TRACE".toUTF8.toList)
-      && !m.body.isEmpty then throw bad
-  pure m
+  if side == .server && !buf.isEmpty && (m.headers.get? sCL).isNone && !c.chunked then .error (.status 411)
+  else if c.coding != .none then .error Element.needsOracle                -- body.decompress(): zlib
+  else
+    -- set_content_length
+    let hs := if c.chunked || (m.headers.get? sCL).isNone then m.headers.put sCL (natToDec m.body.length) else m.headers
+    let hs := if c.chunked then hs.del sTE else hs
+    let m := { m with headers := hs }
+    if side == .server && (m.method == "HEAD".toUTF8.toList || m.method == [0x47, 0x45, 0x54] || m.method == "TRACE".toUTF8.toList)
+        && !m.body.isEmpty then .error bad
+    else .ok m
+
+/-- start-line phase of one loop iteration: `(state, buffer, proceed?)` -/
+def startPhase (E : Env) (side : Side) (c : Cur) (buf : Bytes) : R (Cur × Bytes × Bool) :=
+  if c.startline then .ok (c, buf, true)
+  else match parseStartline E side c buf with
+    | .error e => .error e
+    | .ok (.wait c b) => .ok (c, b, false)
+    | .ok (.done c b) =>
+      match (match side with | .server => to400 (serverStartlineComplete E c.msg) | .client => .ok c.msg) with
+      | .error e => .error e
+      | .ok m => .ok ({ c with msg := m, startline := true }, b, true)
+
+/-- header phase -/
+def headerPhase (E : Env) (side : Side) (c : Cur) (buf : Bytes) : R (Cur × Bytes × Bool) :=
+  if c.headersDone then .ok (c, buf, true)
+  else match parseHeaders E c buf with
+    | .error e => .error e
+    | .ok (.wait c b) => .ok (c, b, false)
+    | .ok (.done c b) =>
+      match (match side with | .server => to400 (serverHeadersComplete E c) | .client => to400 (clientHeadersComplete E c)) with
+      | .error e => .error e
+      | .ok c => .ok ({ c with headersDone := true }, b, true)
 
 /-- `_parse`: the outer loop; `fuel` ≥ buffer length + 1 -/
 def run (E : Env) (side : Side) : Nat → St → List Msg → R (List Msg × St)
   | 0, st, out => .ok (out, st)
   | fuel + 1, st, out =>
     if st.buf.isEmpty then .ok (out, st)
-    else do
-      let c := st.cur.getD {}
-      -- start line
-      let (c, buf, go) ← if !c.startline then
-          match ← parseStartline E side c st.buf with
-          | .wait c b => pure (c, b, false)
-          | .done c b => do
-            let m ← match side with
-              | .server => to400 (serverStartlineComplete E c.msg)
-              | .client => pure c.msg
-            pure ({ c with msg := m, startline := true }, b, true)
-        else pure (c, st.buf, true)
-      if !go then return (out, { buf := buf, cur := some c })
-      -- headers
-      let (c, buf, go) ← if !c.headersDone then
-          match ← parseHeaders E c buf with
-          | .wait c b => pure (c, b, false)
-          | .done c b => do
-            let c ← match side with
-              | .server => to400 (serverHeadersComplete E c)
-              | .client => to400 (clientHeadersComplete E c)
-            pure ({ c with headersDone := true }, b, true)
-        else pure (c, buf, true)
-      if !go then return (out, { buf := buf, cur := some c })
-      -- body
-      match ← to400 (parseBody E c buf) with
-      | .wait c b => return (out, { buf := b, cur := some c })
-      | .done c b =>
-        let m ← to400 (bodyComplete side c b)
-        run E side fuel { buf := b, cur := none } (out ++ [m])
+    else
+      match startPhase E side (st.cur.getD {}) st.buf with
+      | .error e => .error e
+      | .ok (c, buf, false) => .ok (out, { buf := buf, cur := some c })
+      | .ok (c, buf, true) =>
+        match headerPhase E side c buf with
+        | .error e => .error e
+        | .ok (c, buf, false) => .ok (out, { buf := buf, cur := some c })
+        | .ok (c, buf, true) =>
+          match to400 (parseBody E c buf) with
+          | .error e => .error e
+          | .ok (.wait c b) => .ok (out, { buf := b, cur := some c })
+          | .ok (.done c b) =>
+            match to400 (bodyComplete side c b) with
+            | .error e => .error e
+            | .ok m => run E side fuel { buf := b, cur := none } (out ++ [m])
 
 /-- one call of `parse(data)` -/
 def feed (E : Env) (side : Side) (st : St) (data : Bytes) : R (List Msg × St) :=
